@@ -2,7 +2,7 @@
    All statements quantify over EVERY request reader [read_req], EVERY response writer [write_out]
    (result + bytes the socket accepted) and every connection state; sequences by induction. *)
 From SV Require Import Base.Bytes Base.IO Model.Conn Spec.ConnSpec Proofs.ConnP.
-From SV Require Import Generated.SourceParams Tie.ConnTie.
+From SV Require Import Base.SrcAst Generated.SourceParams Tie.ConnTie Tie.ConnGuardTie.
 
 Section C05.
 Variables payload resp : Type.
@@ -136,6 +136,22 @@ Proof. vm_compute. reflexivity. Qed.
 Theorem c05_source_conn_buffer : ConnInst.cap8k = N.to_nat src_conn_buf_len.
 Proof. exact conn_buf_tie. Qed.
 
+(* C05.src2  the leading state guards of HttpConn::read_request / write_http_continue / write_response as
+   TRANSLATED from src/http_conn.rs ON THIS RUN (match arms in source order) return, for EVERY connection state,
+   exactly the misuse error the documented contract prescribes (Spec/ConnSpec.v: guard_error), and let the call
+   proceed exactly when the contract allows it *)
+Theorem c05_source_read_request_guards :
+  forall (resp : Type) c, eval_guards src_guards_read_request c = Some (guard_error resp c (@OReadRequest resp)).
+Proof. exact read_request_guards_tie. Qed.
+Theorem c05_source_write_continue_guards :
+  forall (resp : Type) c, eval_guards src_guards_write_http_continue c = Some (guard_error resp c (@OContinue resp)).
+Proof. exact write_continue_guards_tie. Qed.
+Theorem c05_source_write_response_guards :
+  forall (resp : Type) c r, eval_guards src_guards_write_response c = Some (guard_error resp c (OWrite r)).
+Proof. exact write_response_guards_tie. Qed.
+Theorem c05_guards_translation_complete : src_problems_conn_guards = 0%nat.
+Proof. exact conn_guards_translated. Qed.
+
 Print Assumptions c05_misuse_unchanged.
 Print Assumptions c05_wire_effect.
 Print Assumptions c05_nothing_after_shutdown.
@@ -151,3 +167,7 @@ Print Assumptions c05_failed_body_read_not_head.
 Print Assumptions c05_oracle_sound.
 Print Assumptions c05_failed_body_read_head_refuted.
 Print Assumptions c05_source_conn_buffer.
+Print Assumptions c05_source_read_request_guards.
+Print Assumptions c05_source_write_continue_guards.
+Print Assumptions c05_source_write_response_guards.
+Print Assumptions c05_guards_translation_complete.
